@@ -10,7 +10,10 @@ Steps (JSON lists):
             ["list", k, n, jobs]                 paralle_context_extraction([{"ITS": I}] * n, n_jobs=jobs, n_knn=k): the same object n times
             ["uneq"]                             find_unequal_order_edges(I)
             ["rne"]                              remove_normal_edges(I, "standard_order")
-            ["nn", k]                            find_nearest_neighbors(I, list(get_rc(I).nodes()), k)
+            ["nn", k]                            find_nearest_neighbors(I, list(get_rc(I).nodes()), k)      (k None: default n_knn)
+            ["sub", ids]                         extract_subgraph(I, ids)
+            ["list2", k, n]                      paralle_context_extraction([{"its": I}] * n, "its", "ctx", 1, 0, k)   (all positional)
+            k = None in "k" / "ctx" / "nn": the argument is omitted (defaults n_knn = 0, 0, 1)
   edits of the ITS in place
             ["set_edge", u, v, a, b, std]  ["add_edge", u, v, a, b, std]  ["del_edge", u, v]
             ["set_el", n, el]  ["set_chg", n, c]  ["add_node", n, el]  ["del_node", n]  ["set_mtg", u, v, flag]
@@ -25,7 +28,7 @@ import copy
 from . import c01_enc as E
 from . import c02_enc as X
 
-QUERIES = ("rc", "rcx", "k", "hk", "ctx", "ctx2", "list", "uneq", "rne", "nn")
+QUERIES = ("rc", "rcx", "k", "hk", "ctx", "ctx2", "list", "list2", "uneq", "rne", "nn", "sub")
 
 
 def is_query(step):
@@ -144,15 +147,23 @@ def run_query(I, st, keyobjs=None):
             r = get_rc(I, keep_mtg=keep, disconnected=disc, element_key=kl)
         return [r], X.obs_xits(r)
     if op == "k":
-        r = RadiusExpand.extract_k(I, st[1])
+        r = RadiusExpand.extract_k(I) if st[1] is None else RadiusExpand.extract_k(I, st[1])
         return [r], X.obs_ctx(r)
+    if op == "sub":
+        r = RadiusExpand.extract_subgraph(I, list(st[1]))
+        return [r], X.obs_ctx(r)
+    if op == "list2":
+        _, k, n = st
+        data = [{"its": I, "id": i} for i in range(n)]
+        out = RadiusExpand.paralle_context_extraction(data, "its", "ctx", 1, 0, k)
+        return [d["ctx"] for d in out], [X.obs_ctx(d["ctx"]) for d in out]
     if op == "hk":
         from synkit.Graph.Context.hier_context import HierContext
         r = HierContext.extract_k(I, n_knn=st[1])
         return [r], X.obs_ctx(r)
     if op == "ctx":
         d = {"ITS": I}
-        o = RadiusExpand.context_extraction(d, n_knn=st[1])
+        o = RadiusExpand.context_extraction(d) if st[1] is None else RadiusExpand.context_extraction(d, n_knn=st[1])
         return [o["K"]], X.obs_ctx(o["K"])
     if op == "ctx2":
         d = {"its": I, "ITS": None}
@@ -169,7 +180,10 @@ def run_query(I, st, keyobjs=None):
         r = RadiusExpand.remove_normal_edges(I, "standard_order")
         return [r], X.obs_ctx(r)
     if op == "nn":
-        r = RadiusExpand.find_nearest_neighbors(I, list(get_rc(I).nodes()), st[1])
+        if st[1] is None:
+            r = RadiusExpand.find_nearest_neighbors(I, list(get_rc(I).nodes()))
+        else:
+            r = RadiusExpand.find_nearest_neighbors(I, list(get_rc(I).nodes()), st[1])
         return None, S(sorted(r))
     raise AssertionError(op)
 
@@ -274,17 +288,19 @@ def coq_history(case):
         elif op == "rcx":
             terms.append("txits (get_rc_x %s %s %s %s)" % (X.coq_keys(st[1]), E.cb(st[2]), E.cb(st[3]), X.coq_xits(g)))
         elif op in ("k", "hk", "ctx", "ctx2"):
-            terms.append("tctx (extract_k_z %s (%d))" % (E.coq_its(strip_mtg(g)), st[1]))
-        elif op == "list":
+            terms.append("tctx (extract_k_z %s (%d))" % (E.coq_its(strip_mtg(g)), 0 if st[1] is None else st[1]))
+        elif op in ("list", "list2"):
             terms.append("tlist (fun p : its * its => tctx (snd p)) (context_list %s (%d))"
                          % ("[" + "; ".join([E.coq_its(strip_mtg(g))] * st[2]) + "]", st[1]))
+        elif op == "sub":
+            terms.append("tctx (extract_subgraph %s [%s])" % (E.coq_its(strip_mtg(g)), "; ".join("%d%%N" % x for x in st[1])))
         elif op == "uneq":
             terms.append("tset tN (unequal_nodes %s)" % E.coq_its(strip_mtg(g)))
         elif op == "rne":
             terms.append("tctx (remove_normal %s)" % E.coq_its(strip_mtg(g)))
         elif op == "nn":
             lit = E.coq_its(strip_mtg(g))
-            terms.append("tset tN (knn %s (node_ids (get_rc %s)) %d%%nat)" % (lit, lit, st[1]))
+            terms.append("tset tN (knn %s (node_ids (get_rc %s)) %d%%nat)" % (lit, lit, 1 if st[1] is None else st[1]))
     return "L [%s]" % "; ".join(terms)
 
 
@@ -328,8 +344,13 @@ def pick_edit(rng, g, preserve_counts):
     return rng.choice(choices)
 
 
-def q_default(rng, allow_minus1=False):
+def q_default(rng, allow_minus1=False, g=None):
     z = rng.random()
+    if g is not None and z < 0.12:
+        ids = [n for n, _ in g["nodes"]]
+        return ["sub", sorted(rng.sample(ids, rng.randint(0, len(ids))) + ([max(ids) + 50] if rng.random() < 0.3 else []))]
+    if z < 0.2:
+        return rng.choice((["k", None], ["ctx", None], ["nn", None], ["list2", rng.choice((0, 1, 2)), 2]))
     if z < 0.45:
         return [rng.choice(("k", "k", "hk", "ctx", "ctx2")), rng.choice((1, 1, 2, 2, 3, 0) + ((-1,) if allow_minus1 else ()))]
     if z < 0.6:
@@ -369,7 +390,7 @@ def gen_history(rng, base, flavour):
         for _ in range(rng.randint(1, 2)):
             push(pick_edit(rng, g, pc))
             push(["k", rng.choice((1, 1, 2))] if rng.random() < 0.6 else q_default(rng, allow_minus1=pc))
-        push(q_default(rng, allow_minus1=pc))
+        push(q_default(rng, allow_minus1=pc, g=g))
     elif flavour == "b3":                                 # rewiring: same centre, same node/edge counts, other distances
         k = rng.choice((1, 1, 2))
         q = [rng.choice(("k", "hk", "ctx", "nn")), k]
